@@ -51,12 +51,14 @@ theorem from_eq (v sp : Bytes) (a : Nat) (h : a ≤ v.length) :
   simp [h]
 
 theorem copyOut_eq (v sp : Bytes) (a n : Nat) (h : a + n ≤ v.length) :
-    copyOut (Slice.mk v sp) a n = .ok (if n > 0 then (v.drop a).take n else []) := by
+    copyOut (Slice.mk v sp) a n = .ok ((v.drop a).take n) := by
   unfold copyOut
   split
   · rw [bytes_eq v sp a (a + n) (by omega) h]
     congr 2
     omega
-  · rfl
+  · have : n = 0 := by omega
+    subst this
+    simp
 
 end Modbus.Lemmas
